@@ -64,6 +64,27 @@ impl StyleSheetOutput {
         });
     }
 
+    /// Append source text as it is, right after the previous token (it ends like a dimension).
+    pub(crate) fn append_verbatim(&mut self, s: &str, position: crate::error::Position) {
+        self.prev_ser_type = Token::Dimension {
+            has_sign: false,
+            value: 0.,
+            int_value: None,
+            unit: "x".into(),
+        }
+        .serialization_type();
+        self.source_map.add_raw(
+            0,
+            self.utf16_len,
+            position.line,
+            position.utf16_col,
+            Some(self.source_id),
+            None,
+        );
+        self.s += s;
+        self.utf16_len += str::encode_utf16(s).count() as u32;
+    }
+
     pub(crate) fn append_token(&mut self, token: StepToken, src: Option<Token>) {
         let next_ser_type = token.serialization_type();
         if self
